@@ -124,7 +124,7 @@ def handle_corrupt_effects(w: World):
     check(len(ns) == 1, "exactly one notification")
 
 
-@lemma(props=["C17"], configs="sides", fixed_clock=True)
+@lemma(props=["C17", "C14"], configs="sides", fixed_clock=True)
 def mark_changed_strictly_increasing(w: World):
     """L17.3: change times never repeat and always increase, whatever the clock returns"""
     state = w.state
